@@ -107,20 +107,22 @@ def run(prog: Program, chk: Check):
     okh = len(hdef) == 1 and isinstance(hdef[0].value, ast.Call) and is_method_call(hdef[0].value, "from_dict") and "'header'" in norm(hdef[0].value.args[0]).replace('"', "'")
     V.decide(okh, fkey(fj, "header-decoded-first"), where(fj), "header decoded from d['header']", "header is not decoded from d['header']")
     goal = guards.parse(f"{hv}.version == 0 or {hv}.version == {mcls}.type_hash")
-    bad = guards.any_path_implies(gs.at(dec[0]), goal)
+    cmj = {k: v for k, v in guards.copy_map(fj.node).items() if k not in (hv, mcls)}
+    at = lambda n_: [[(guards.subst(e, cmj), pol) for e, pol in p_] for p_ in gs.at(n_)]
+    bad = guards.any_path_implies(at(dec[0]), goal)
     V.decide(not bad, fkey(fj, "decode-under-version-guard"), where(fj, dcall), "decode dominated by the version guard",
              "the data segment can be decoded although the header carries a different non-zero version")
     # ... and nothing is returned at all without that guard (a branch that builds the data object some other way,
     # e.g. a signal fast path, must not bypass the refusal)
     rets = [n for n in g.nodes if n.kind == "stmt" and isinstance(n.ast, ast.Return) and n.ast.value is not None]
-    badr = [n for n in rets if guards.any_path_implies(gs.at(n), goal)]
+    badr = [n for n in rets if guards.any_path_implies(at(n), goal)]
     V.decide(bool(rets) and not badr, fkey(fj, "every-return-under-version-guard"), where(fj), "every return of from_json is dominated by the version guard",
              "Message.from_json can return a message although the header carries a different non-zero version (a path bypasses the refusal): " + "; ".join(norm(n.ast) for n in badr))
     # and the refusal is not stronger than stated: version 0 and equal versions reach the decode
     rz = [n for n in g.nodes if n.kind == "stmt" and isinstance(n.ast, ast.Raise) and "InvalidMessageDefinition" in norm(n.ast)]
     okr = bool(rz)
     for n in rz:
-        if guards.any_path_implies(gs.at(n), guards.parse(f"{hv}.version != 0 and {hv}.version != {mcls}.type_hash")):
+        if guards.any_path_implies(at(n), guards.parse(f"{hv}.version != 0 and {hv}.version != {mcls}.type_hash")):
             okr = False
     V.decide(okr, fkey(fj, "refusal-exact"), where(fj), "refusal only for a non-zero version different from the local hash",
              "from_json refuses (or never refuses) under a condition other than version != 0 and version != type_hash")
